@@ -74,8 +74,8 @@ def grid_case(ctx, i):
 
 
 def run(ctx):
-    sched_suite.run_suite(ctx, PROF, ctx.scale(600, 30000), "c05", [], nontrivial, signature_of)
-    for i in range(ctx.scale(300, 8000)):
+    sched_suite.run_suite(ctx, PROF, ctx.scale(2000, 120000), "c05", [], nontrivial, signature_of)
+    for i in range(ctx.scale(800, 40000)):
         grid_case(ctx, i)
 
 
